@@ -25,10 +25,13 @@
       the first image whose ID is N
       -> ok <pos,…|-> | err:invalid-image-index
 
-    hchat <variant> <limit> <srchex> <tmpl> <sysHex> <nModel> {msg}* <nReq> {msg}*
-      POST /api/chat end to end (ChatHandler with a mock runner whose tokenizer is strings.Fields):
-      the model's MESSAGEs, SYSTEM and TEMPLATE, the request's messages and num_ctx
-      -> load | ok imgs=<…> prompt=<hex>   (what the handler passes to Completion) | err…
+    hchat <variant> <default num_ctx> <model PARAMETER num_ctx|-> <request num_ctx|-> <numParallel>
+          <srchex> <tmpl> <sysHex> <nModel> {msg}* <nReq> {msg}*
+      POST /api/chat end to end (real ChatHandler, real Scheduler incl. its load path, mock runner whose
+      tokenizer is strings.Fields): the model's MESSAGEs, SYSTEM, TEMPLATE and num_ctx PARAMETER, the
+      request's messages and num_ctx option, the number of parallel slots the scheduler loaded with
+      -> load | ok loaded=<NumCtx the runner was loaded with> imgs=<…> prompt=<hex>
+         (prompt/imgs = what the handler passes to Completion) | err…
 
     handler <sysHex> <nModel> {msg}* <nReq> {msg}*        (msg as above)
       ChatHandler's conversation: -> <role>:<contenthex>;…
@@ -222,25 +225,30 @@ def handle (toks : List String) : Option String :=
   | "hchat" :: rest =>
     runTP (do
       let variant ← nat
-      let limit ← int
+      let dflt ← int
+      let mp ← tok
+      let ro ← tok
+      let par ← nat
       let _src ← tok
       let tmpl ← pTmpl rest.length
       let sys ← hex
       let mm ← listOf pMsg
       let req ← listOf pMsg
-      let cfg : Cfg := ⟨variant % 2 != 0, false, 0, limit⟩
+      let optInt : String → Option Int := fun s => if s == "-" then none else s.toInt?
       let tv : TVar := ⟨variant / 2 % 4, variant / 8 % 2 != 0⟩
+      let lim := requestNumCtx dflt (optInt mp) (optInt ro)
       pure (match req, tmpl with
         | [], _ => "load"
         | _, none => "opaque"
         | _, some t =>
-          match chatPromptT cfg tv t 0 (handlerMsgs mm sys req) with
+          let loaded := s!"loaded={runnerNumCtx lim par}"
+          match chatHandler (variant % 2 != 0) false tv t dflt (optInt mp) (optInt ro) par mm sys req with
           | .panicEmpty => "panic:empty"
           | .errTooMany => "err:too-many-images"
           | .errPreprocess => "err:preprocess"
           | .tmplErr e => showErr e
           | .tokErr => "err:tokenize"
-          | .ok _ _ _ _ imgs p => s!"ok imgs={showImgs imgs} prompt={hexOrDash p}")) rest
+          | .ok _ _ _ _ imgs p => s!"ok {loaded} imgs={showImgs imgs} prompt={hexOrDash p}")) rest
   | "handler" :: rest =>
     runTP (do
       let sys ← hex
